@@ -61,6 +61,9 @@ def check_1d(case, ctx: Ctx):
     freq = np.array(spec["freq"], dtype=spec["dtype"])
     err = np.array(spec["err2"] if spec["err2"] is not None else spec["freq"], dtype=spec["dtype"])
     pairs = np.array(before["binnings"][0]["bins"], dtype=float)
+    if case.get("touch"):
+        ctx.maybe(lambda: h.numpy_bins)  # reading cached representations first must not matter
+        ctx.maybe(h.binning.is_consecutive)
 
     def do():
         return h.select(0, index) if via_select else h[index]
@@ -141,6 +144,11 @@ def check_1d(case, ctx: Ctx):
     require(r.dtype == h.dtype == r.frequencies.dtype, "dtype", f"{r.dtype} vs {h.dtype}")
     require(r.name == h.name and tuple(r.axis_names) == tuple(h.axis_names), "metadata", f"{r.name},{r.axis_names}")
     contiguous = kind == "slice" and (index.step is None or index.step == 1)
+    if not model.gaps(model.pairs_of(want_b)):
+        # the edge representation of the selection agrees with its bins
+        ne = [float(x) for x in ctx.call("result.numpy_bins", lambda: r.numpy_bins)]
+        require(ne == [float(want_b[0][0])] + [float(p[1]) for p in want_b], "numpy_bins_of_selection", f"{ne} vs {want_b.tolist()}")
+        require(float(r.binning.first_edge) == float(want_b[0][0]) and float(r.binning.last_edge) == float(want_b[-1][1]), "first_last_edge_of_selection", "")
     if contiguous:
         sel = list(range(n))[index]
         cut_left = sum((F(x) for x in freq[: sel[0]]), Fraction(0))
@@ -192,7 +200,7 @@ def cases_1d(draw, tier="quick"):
         elif draw(st.integers(0, 4)) == 0:
             vals = sorted(v - n for v in vals)  # negative spellings, still increasing
         ix = [kind, vals]
-    return {"spec": spec, "index": ix, "select": draw(st.booleans()) and kind in ("int", "slice")}
+    return {"spec": spec, "index": ix, "select": draw(st.booleans()) and kind in ("int", "slice"), "touch": draw(st.booleans())}
 
 
 # ---------------------------------------------------------------------------------
